@@ -16,18 +16,18 @@ CHECKS = {
 
 CHECKS["C05"] = ("model_checking",
     "explicit-state BFS over storage-operation histories on the real backends vs a plain-dictionary reference, whole-state probe per canonical state",
-    "All operation histories up to the stated depth over an alphabet with prefix-related names/versions, small/large/oversize/None/exception values, weak-referenceable results the caller keeps holding (fitting and oversize), key overrides and metadata are executed on memory, filesystem and filesystem+cache backends; every answer is compared with a dictionary, and every distinct canonical state (file tree + cache + model) is additionally compared as a whole through a fresh cache-less view, including that nothing superseded or forgotten is cache-resident.",
+    "All operation histories up to the stated depth over an alphabet with prefix-related names/versions, small/large/oversize/None/exception values, weak-referenceable results the caller keeps holding (fitting and oversize), key overrides and metadata are executed on memory, filesystem and filesystem+cache backends; batch look-ups answer per position; every answer is compared with a dictionary, and every distinct canonical state (file tree + cache + model) is additionally compared as a whole through a fresh cache-less view, including that nothing superseded or forgotten is cache-resident.",
     "Depth-bounded (quick 3-5, thorough 4-6 operations); values are tagged strings so staleness is observable; metadata stored with a superseded data object is treated as undefined.",
     "DESIGN.md §3 C05")
 CHECKS["C07"] = ("model_checking",
     "explicit-state BFS over storage histories with whole-store integrity scan (hash, dedup, link, immutability) after every transition",
-    "The C05 exploration on the filesystem backend with byte-identical results from different calls/functions, partitions, exceptions and key-override writes to one shared key; after every transition every stored object is re-hashed, links are followed, duplicates counted, and every live memento's bytes are compared with the bytes recorded when it was created.",
+    "The C05 exploration on the filesystem backend with byte-identical results from different calls/functions, partitions, exceptions key-override writes of two different calls to one shared key (also by writers that seed the process-wide PRNG before writing), and write faults (ENOSPC mid-object) with and without memory cache; after every transition every stored object is re-hashed, links are followed, duplicates counted, and every live memento's bytes are compared with the bytes recorded when it was created.",
     "Depth-bounded (quick 2-3, thorough 3-5); crash/fault interleavings of a write are C08's subject, not this check's.",
     "DESIGN.md §3 C07")
 
 CHECKS["C19"] = ("model_checking",
     "explicit-state BFS over operation histories on a pre-populated store opened read-only (6 ways) with file-system audit + tree digest after every transition; exhaustive sequences for null storage / null runner",
-    "Every history to the stated depth of storage-level and function-level operations against a populated store reopened read-only by argument, storage config, cluster config, with/without cache and on the memory backend: after each transition no mutating audit event under the roots, the tree digest equals the initial one, reads answer as the model, memoize is skipped, forget/metadata writes are rejected. Null storage and null runner: every operation sequence to depth 3 with body-execution counts.",
+    "Every history to the stated depth of storage-level and function-level operations against a populated store reopened read-only by argument, storage config, cluster config, with/without cache, on the memory backend, and on a store whose data object for one call was lost before it was opened read-only: after each transition no mutating audit event under the roots, the tree digest equals the initial one, reads answer as the model, memoize is skipped, forget/metadata writes are rejected. Null storage and null runner: every operation sequence to depth 3 with body-execution counts.",
     "Audit coverage is what CPython's audit events report (open, mkdir, remove, rename, rmdir, rmtree, truncate, link, chmod, utime); the digest catches anything else that changes file contents or names.",
     "DESIGN.md §3 C19")
 
@@ -39,25 +39,25 @@ CHECKS["C08"] = ("fault_enumeration",
 
 CHECKS["C09"] = ("model_checking",
     "stateless model checking of real threads under a controlled scheduler (sys.settrace baton + scheduler-aware library locks), iterative preemption bounding",
-    "Every schedule with at most 1 preemption (quick; 2 thorough) of 2-3 threads calling memoized functions is executed on the real runner/storage/cache code for {cold, warm store, warm cache} x {same key, different keys} x 4 backends, plus automatically versioned functions (two unrelated functions; two callers whose nested call trees share a sub-tree, cold and warm), with scheduling points at every line of the runner, call-stack, storage and cache code and at every library lock acquisition; additionally every schedule with at most 2 (thorough 3) preemptions at runner granularity (line points in the runner, call points in storage) for the cold-store scenarios. Per execution: values, no escaped exception, exactly one body run per un-memoized call, no deadlock/livelock, cache accounting consistent and final cache equal to a sequential outcome.",
+    "Every schedule with at most 1 preemption (quick; 2 thorough) of 2-3 threads calling memoized functions is executed on the real runner/storage/cache code for {cold, warm store, warm cache} x {same key, different keys} x 4 backends, plus automatically versioned functions (two unrelated functions; two callers whose nested call trees share a sub-tree, cold and warm), a batch against a single call of one of its elements, and three callers of a call whose first execution ends with a not-to-be-memoized exception (bound 2 at call granularity: one caller sees the failure, the body runs twice, never twice at once; fixture bodies are traced), with scheduling points at every line of the runner, call-stack, storage and cache code and at every library lock acquisition; additionally every schedule with at most 2 (thorough 3) preemptions at runner granularity (line points in the runner, call points in storage) for the cold-store scenarios. Per execution: values, no escaped exception, exactly one body run per un-memoized call, no deadlock/livelock, cache accounting consistent and final cache equal to a sequential outcome.",
     "Switches happen only at line boundaries of the traced files and at lock acquisitions (thorough adds opcode-level points in MemoryCache); pure string/path helpers are atomic; no Python race detector exists in the image; schedules beyond the preemption bound are not explored.",
     "DESIGN.md §3 C09")
 
 CHECKS["C01"] = ("model_checking",
     "exhaustive enumeration of edit histories over generated programs, each edition executed on the real library in fresh or long-lived processes, differential oracle = un-decorated rendering of the current edition",
-    "19 program skeletons (root -> dependency chains over memento / explicit-version / plain functions through bare, module.attr, alias, decorator-wrapper and nested-call references; globals of 7 types, class constants, dotted-head bindings, late definitions, hidden dynamic edges, memento callees in a second package) x every edit site x every edit sequence up to length 1 (quick) / 2 (thorough) x delivery cross-process / in-process re-exec+rebind / in-process reload. After every edit every auto-versioned function is called with an explicit argument and with its defaults (hidden-edge programs also through force_local / partial / with_context_args clones); the result must equal the un-memoized run of the current edition or be UndeclaredDependencyError.",
-    "Programs come from a fixed skeleton family, not arbitrary Python; explicit-version functions are edited only together with a version bump (of every explicit function reaching the edit); unsupported variable types and helpers in other packages are outside the statement.",
+    "20 program skeletons (root -> dependency chains over memento / explicit-version / plain functions through bare, module.attr, alias, decorator-wrapper and nested-call references; globals of 7 types, class constants, dotted-head bindings, late definitions, hidden dynamic edges, memento callees in a second package, several variables holding equal values) x every edit site (incl. copying one variable's value to another) x every edit sequence up to length 1 (quick) / 2 (thorough) x delivery cross-process / in-process re-exec+rebind / in-process reload / in-place mutation of tracked lists and dicts. After every edit every auto-versioned function is called with an explicit argument and with its defaults (hidden-edge programs also through force_local / partial / with_context_args clones); the result must equal the un-memoized run of the current edition or be UndeclaredDependencyError.",
+    "Programs come from a fixed skeleton family, not arbitrary Python; explicit-version functions are edited only together with a version bump (of every explicit function reaching the edit); unsupported variable types and plain helpers in other packages are outside the statement.",
     "DESIGN.md §3 C01")
 
 CHECKS["C03"] = ("model_checking",
     "exhaustive enumeration of (program x hash seed x definition-order permutation x import order x first-query-order permutation) configurations, each executed in a real interpreter started with that PYTHONHASHSEED",
-    "For the C01 program skeletons plus constant-heavy, same-leaf-in-two-namespaces, in-place-fill and cross-package (memento and plain functions of a second package referenced from the root and through a helper) programs: one fresh interpreter per seed (quick 9, thorough 33 seeds) imports every program under every permutation of the definition order of its functions and module-level statements, both import orders, and queries versions in every order; each function must have exactly one version over the whole matrix. Then a second process with a different seed and reversed definition order re-runs all roots on the store the first filled: zero function bodies, equal values.",
+    "For the C01 program skeletons plus constant-heavy, same-leaf-in-two-namespaces, in-place-fill (two fills per dict), set literals of strings / tuples / bytes, and cross-package (memento and plain functions of a second package referenced from the root and through a helper) programs: one fresh interpreter per seed (quick 9, thorough 33 seeds) imports every program under every permutation of the definition order of its functions and module-level statements (up to 5), both import orders, and queries versions in every order; each function must have exactly one version over the whole matrix. Then a second process with a different seed and reversed definition order re-runs all roots on the store the first filled: zero function bodies, equal values.",
     "Hash seeds are a finite stated subset of 2^32 (the run fails as vacuous unless at least two distinct set iteration orders were exercised); programs come from the skeleton family.",
     "DESIGN.md §3 C03")
 
 CHECKS["C14"] = ("model_checking",
     "exhaustive enumeration of reference digraphs x kind assignments x reference forms, each program imported in a fresh process; oracle = graph reachability",
-    "Every digraph without self loops over N<=3 nodes (thorough: N=4 up to relabelling) with every assignment of kinds {memento auto, memento explicit, plain} and reference forms bare / module.attr / alias / decorator wrapper (all form assignments for N=2, covering rotations above) is rendered as a real module; for every memento node the reported transitive and direct dependencies and the dependency-graph links are compared with reachability, and every hidden dynamic call and every argument-passed call u=>v, directly and one real static call deeper (u->w=>v, including callees already on the call stack), through plain invocation and every modifier clone, must be refused exactly when v is outside the closure of the calling memento function.",
+    "Every digraph without self loops over N<=3 nodes (thorough: N=4 up to relabelling) with every assignment of kinds {memento auto, memento explicit, plain} and reference forms bare / module.attr / alias / decorator wrapper (all form assignments for N=2, covering rotations above) is rendered as a real module (graphs with 2-3 nodes additionally with the nodes spread over a module, the package __init__.py and a sibling module); for every memento node the reported transitive and direct dependencies and the dependency-graph links are compared with reachability, and every hidden dynamic call and every argument-passed call u=>v, directly and one real static call deeper (u->w=>v, including callees already on the call stack), through plain invocation and every modifier clone, must be refused exactly when v is outside the closure of the calling memento function.",
     "A function is never its own dependency (self entries and self links excluded); explicit-version callers are exempt from enforcement as documented; graphs beyond 4 nodes are not enumerated.",
     "DESIGN.md §3 C14")
 
@@ -69,7 +69,7 @@ CHECKS["C13"] = ("model_checking",
 
 CHECKS["C04"] = ("model_checking",
     "bounded-exhaustive enumeration of argument values x signatures x all presentations of a binding, executed on the real reference/hash code and a filesystem store; oracle = independent implementation of the documented hash + iff-relation over all value pairs",
-    "Every value of the argument alphabet (27 atoms incl. look-alikes across bool/int/float/str, -0.0, NaN, inf, non-ASCII, dates, naive/aware datetimes; lists and string-keyed dicts incl. both insertion orders and keys that need JSON escaping; function references with partial arguments) is bound on 1-parameter functions and in combinations on 2/3-parameter, defaulted, keyword-only and **kwargs signatures, and presented in every well-defined way (positional/keyword splits, keyword orders, one or two partial applications). All presentations must give one key equal to the documented SHA-256 of the canonical JSON, one body run, and the body must receive exactly the normalized values; all ordered value pairs must share a key iff their canonical encodings are equal; context-argument dictionaries likewise.",
+    "Every value of the argument alphabet (27 atoms incl. look-alikes across bool/int/float/str, -0.0, NaN, inf, non-ASCII, dates, naive/aware datetimes; lists and string-keyed dicts incl. both insertion orders and keys that need JSON escaping; function references with partial arguments) is bound on 1-parameter functions and in combinations on 2/3-parameter, defaulted, keyword-only and **kwargs signatures, and presented in every well-defined way (positional/keyword splits, keyword orders, one or two partial applications). All presentations must give one key equal to the documented SHA-256 of the canonical JSON, one body run, and the body must receive exactly the normalized values; all ordered value pairs must share a key iff their canonical encodings are equal; context-argument dictionaries likewise; a three-level call chain is run under each context (every level computed again, nested keys equal the documented hash with that context); every ordered pair of five signatures is used as definition and re-definition of one function in a running process (module rewritten + reload) with all presentations checked after each.",
     "Positional arguments of a partial application placed after a keyword partial of an earlier parameter are not a well-defined presentation (the library lets the positional overwrite the keyword) and are not generated; var-positional / positional-only signatures are excluded by the statement.",
     "DESIGN.md §3 C04")
 
@@ -81,19 +81,19 @@ CHECKS["C11"] = ("model_checking",
 
 CHECKS["C12"] = ("model_checking",
     "exhaustive enumeration of name/version strings (pure parse round trip and real store round trip) and of evolution histories of a caller/callee pair, cross-process and in-process",
-    "A: every version string over {a,1,.,_,-,+,=,:,#,@} up to length 3 (quick) / 4 (thorough) x 4 cluster names (incl. one with ':') x 2 modules x 2 function names must parse back into exactly its parts. B: a sub-alphabet of versions (all single characters, all two-character strings starting with ':' '#' '1', more in thorough) is used as a real explicit version in the default and in a named cluster (package and cluster names starting with 'm') on memory and filesystem backends: body once, hit, memento(), list_mementos(), list_memoized_functions(). C: every step sequence of length <= 2 over {edit, bump, remove, rename, recluster, make plain, restore} of the callee (auto or explicit) with the caller's version pinned, in default and named clusters, delivered cross-process and in one process: the caller is served, no metadata read raises, references to vanished versions are external.",
-    "Cluster names do not contain '::' or '#'; module/function names are dotted identifiers; a callee that only moved to another cluster is not counted as vanished.",
+    "A: every version string over {a,1,.,_,-,+,=,:,#,@} up to length 3 (quick) / 4 (thorough) x 4 cluster names (incl. one with ':') x 2 modules x 2 function names must parse back into exactly its parts. B: a sub-alphabet of versions (all single characters, all two-character strings starting with ':' '#' '1', more in thorough) is used as a real explicit version in the default and in a named cluster (package and cluster names starting with 'm') on memory and filesystem backends: body once, hit, memento(), list_mementos(), list_memoized_functions(). C: every step sequence of length <= 2 over {edit, bump, remove, rename, recluster, make plain, restore} of the callee (auto or explicit) with the caller's version pinned, in the default cluster, a named cluster and a named cluster whose name is a prefix of the module name, with the callee called or handed to a middle function as an argument, delivered cross-process and in one process: the caller is served, no metadata read raises, references to vanished versions are external, the names in the caller's stored record do not change, and every function listed before a step is still listed under the same name with at least as many mementos.",
+    "Cluster names do not contain '::' or '#'; module/function names are dotted identifiers; a callee that only moved to another cluster is not counted as vanished (and listing monotonicity is not demanded after such a move).",
     "DESIGN.md §3 C12")
 
 CHECKS["C15"] = ("model_checking",
     "bounded-exhaustive enumeration of batches x pre-memoized subsets (cache-resident or disk-only) x options x backends on the real runner; differential oracle = twin store driven by individual calls",
-    "Every batch of length 0..3 (quick) / 0..4 (thorough) over {0,1,2, failing, not-to-be-memoized failing} with duplicates, for every subset of its memoizable elements memoized beforehand (on the cached backend each one either resident in the cache or only on disk after reopening), with raise_first_exception true/false, with no / positional / keyword partial prefix, through call_batch and map_over_range, on memory, filesystem and filesystem+cache backends, is compared slot by slot (values, exception class and message, which exception is raised), by body-run counts per element, and by the final store contents with element-wise evaluation on a twin store.",
+    "Every batch of length 0..3 (quick) / 0..4 (thorough) over {0,1,2, failing, not-to-be-memoized failing} with duplicates, for every subset of its memoizable elements memoized beforehand (on the cached backend each one either resident in the cache or only on disk after reopening), with raise_first_exception true/false, with no / positional / keyword partial prefix, through call_batch and map_over_range, on memory, filesystem and filesystem+cache backends, is compared slot by slot (values, exception class and message, which exception is raised), by body-run counts per element, and by the final store contents with element-wise evaluation on a twin store. Batches of 2-3 look-alike values (1, 1.0, True, 0, 0.0, False) through map_over_range and call_batch: each element runs its own body once and is memoized on its own.",
     "Element alphabet of 5; one function of two parameters; the local runner.",
     "DESIGN.md §3 C15")
 
 CHECKS["C10"] = ("model_checking",
     "bounded-exhaustive enumeration of call trees x pre-memoized subsets x invocation modes x backends on the real runner, plus stateless exploration of all schedules (preemption-bounded) of two threads with overlapping call trees; oracle = provenance record folded from the call tree",
-    "Root plans are all action sequences up to length 2 (quick) / 3 (thorough) over 17 actions (single call, repeated call, batch with a duplicate, failing sub-call caught or uncaught, resource handle, sub-plans to depth 3 over four automatically versioned functions); for every subset of the first 4 (6) distinct sub-invocations memoized beforehand and for single / batch-of-one / batch-of-two invocation on memory, filesystem and filesystem+cache backends, the recorded invocations (order and argument hashes), resources, dependency set and result type of the root AND of every intermediate call must equal the prediction from the tree. Concurrent part: two threads whose call trees share a sub-tree (so that a sub-call is found in the store only after the caller's pre-check missed it), every schedule with at most 1 preemption at line granularity (thorough: 2 at runner granularity) under the controlled scheduler of C09; after each execution the record of every call in both trees is compared with the static call tree.",
+    "Root plans are all action sequences up to length 2 (quick) / 3 (thorough) over 19 actions (single call, repeated call, batch with a duplicate, failing sub-call caught or uncaught, sub-call or batch element ending with a not-to-be-memoized exception, resource handle, sub-plans to depth 3 over four automatically versioned functions); for every subset of the first 4 (6) distinct sub-invocations memoized beforehand and for single / batch-of-one / batch-of-two invocation on memory, filesystem and filesystem+cache backends, the recorded invocations (order and argument hashes), resources, dependency set and result type of the root AND of every intermediate call must equal the prediction from the tree. Concurrent part: two threads whose call trees share a sub-tree (so that a sub-call is found in the store only after the caller's pre-check missed it), every schedule with at most 1 preemption at line granularity (thorough: 2 at runner granularity) under the controlled scheduler of C09; after each execution the record of every call in both trees is compared with the static call tree.",
     "The functions interpret a plan argument, so all nodes share one static closure; only the local runner.",
     "DESIGN.md §3 C10")
 
@@ -105,18 +105,18 @@ CHECKS["C16"] = ("model_checking",
 
 CHECKS["C02"] = ("model_checking",
     "bounded-exhaustive enumeration of result values x backends x call modifiers, each executed on the real runner/storage; differential oracle = the plain function",
-    "Every value of the result alphabet (None, bool, ints, floats incl. -0.0/NaN/inf, str, bytes, date, naive/aware datetime, Timestamp, numpy arrays of the seven dtypes empty / length 1 / with NaN, pandas Index / Series / DataFrame empty / tiny / object / NaN, in-memory and on-disk partitions, seven exception classes incl. two-argument, nested, function-local and not-to-be-memoized ones; closed under list / dict to depth 1 quick, 2 thorough) on memory, filesystem and filesystem+cache (8 B, 4 KiB, 1 MiB) backends with no modifier, ignore_result and force_local: call (body once, equal and usable value), call (no body, equal value of the same type / same exception class or memoized-exception type with the message), memento() result type equals the classification of the value read back, forget, call (body once), call; a neighbour call of the same function and a twin function with byte-identical result stay memoized; a batch [memoized, new, memoized] returns the right slots.",
+    "Every value of the result alphabet (None, bool, ints, floats incl. -0.0/NaN/inf, str, bytes, date, naive/aware datetime, Timestamp, numpy arrays of the seven dtypes empty / length 1 / with NaN, pandas Index / Series / DataFrame empty / tiny / object / NaN, in-memory and on-disk partitions, eight exception classes incl. two-argument, nested, function-local, same-named-in-two-modules and not-to-be-memoized ones; closed under list / dict to depth 1 quick, 2 thorough) on memory, filesystem and filesystem+cache (8 B, 4 KiB, 1 MiB) backends with no modifier, ignore_result, force_local and with every call of the function stored under one shared key override (the neighbour call writes the same override key with other content); exception values are exercised after every other exception class of the alphabet (incl. a same-named class of another module) was recorded and replayed in the process: call (body once, equal and usable value), call (no body, equal value of the same type / same exception class or memoized-exception type with the message), memento() result type equals the classification of the value read back, forget, call (body once), call; a neighbour call of the same function and a twin function with byte-identical result stay memoized; a batch [memoized, new, memoized] returns the right slots.",
     "pandas values have <= 100 rows; equality is type-exact and NaN-aware; local runner.",
     "DESIGN.md §3 C02")
 CHECKS["C17"] = ("model_checking",
     "bounded-exhaustive enumeration of partition merge chains x parent provenance x staging kinds x backends on the real codec/storage; oracle = dictionary overlay",
-    "Chains of length 0..2 (quick) / 0..3 (thorough) of memento functions each returning a partition that declares the previous one as merge parent: own key sets per level from 5 subsets of {a,b,c} (values int / str / None / list / DataFrame depending on key and level), parent obtained by computing it in the nested call, by reading it back from disk after reopening, or from the memory cache, in-memory and on-disk staging in all-same and alternating patterns, on filesystem, filesystem+cache and memory backends. The object returned by the first call, the object read back through a fresh backend, and every lower level of the chain afterwards must equal the overlay (own keys win, parent-only keys remain); the second call runs no body; get(k) of a read-back partition opens at most one data object.",
+    "Chains of length 0..2 (quick) / 0..3 (thorough) of memento functions each returning a partition that declares the previous one as merge parent: own key sets per level from 5 subsets of {a,b,c} (values int / str / None / list / DataFrame depending on key and level), parent obtained by computing it in the nested call, by reading it back from disk after reopening, from the memory cache, or built in memory and never serialized (lowest levels; values must be right on every call whether or not the library stores the child), in-memory and on-disk staging in all-same and alternating patterns, on filesystem, filesystem+cache and memory backends. The object returned by the first call, the object read back through a fresh backend, and every lower level of the chain afterwards must equal the overlay (own keys win, parent-only keys remain); the second call runs no body; get(k) of a read-back partition opens at most one data object.",
     "Key alphabet of three; merge parents are set through the _merge_parent attribute as the library's own tests do.",
     "DESIGN.md §3 C17")
 
 CHECKS["C18"] = ("model_checking",
     "exhaustive enumeration of the option matrix x supply forms x overrides x repository orders (incl. prepend/append after a first resolution); differential oracle = behavioural probes of the constructor-built twin",
-    "All 90 combinations of storage type {filesystem, memory, null} x metadata_path x memory_cache_mb x readonly {absent, false, true} x runner {absent, local, null}, each supplied as inline dict, as JSON files (environment -> repository -> cluster) and as a YAML repository file with a template parameter, are compared with the cluster built from constructor arguments through behavioural probes (where data and mementos land, whether a repeated read opens files, whether memoize / forget / metadata writes are accepted, whether calls run); each environment is then dumped with to_dict() and rebuilt: same probes, and a result written through the original must be served through the rebuilt one. Seven explicit-argument overrides must win over the configuration. Repository lists of length 1..3 over all cluster-name subsets in every order, also with a prepend or append after a first resolution, must resolve each name to the first repository defining it (identity, where the call stores, and after dump/rebuild).",
+    "All 90 combinations of storage type {filesystem, memory, null} x metadata_path x memory_cache_mb x readonly {absent, false, true} x runner {absent, local, null}, each supplied as inline dict, as JSON files (environment -> repository -> cluster) and as a YAML repository file with a template parameter, are compared with the cluster built from constructor arguments through behavioural probes (where data and mementos land, whether a repeated read opens files, whether memoize / forget / metadata writes are accepted, whether calls run); each environment is then dumped with to_dict() and rebuilt: same probes, and a result written through the original must be served through the rebuilt one. Nine explicit-argument overrides (incl. putting a separated metadata path back under the data path and switching a configured cache off) must win over the configuration, also after the overridden environment is dumped and rebuilt. Repository lists of length 1..3 over all cluster-name subsets in every order, also with a prepend or append after a first resolution, must resolve each name to the first repository defining it (identity, where the call stores, and after dump/rebuild).",
     "Options documented for the shipped backends only; paths in scratch space.",
     "DESIGN.md §3 C18")
 
